@@ -129,7 +129,7 @@ def rand_layout_kwargs(rng):
     keys = {k.keyid: k.pub for k in rng.sample(pool, rng.randrange(0, 3))}
     steps = []
     for j in range(rng.randrange(0, 3)):
-        steps.append(Step(name="s%d%s" % (j, rstr(rng, 3)), pubkeys=list(keys)[:1], threshold=rng.choice([1, 2]),
+        steps.append(Step(name="s%d%s" % (j, rstr(rng, 3)), pubkeys=list(keys)[:1], threshold=rng.choice([1, 2, 0, 1]),
                           expected_materials=[["ALLOW", rstr(rng, 5) or "*"]],
                           expected_products=[["MATCH", "*", "WITH", "PRODUCTS", "FROM", "x"], ["DISALLOW", "*"]],
                           expected_command=[rstr(rng, 5)]))
@@ -266,6 +266,9 @@ def one_roundtrip(rng, res, d, use_gpg):
     e = scen.edit_signature(content, rng)
     if e:
         variants.append(("sig_edit", e[0], verify_pub, False))
+    e = scen.falsy_edit(content, rng)
+    if e:
+        variants.append(("falsy_edit", e[0], verify_pub, False))
     for label, c, pub, must_verify in variants:
         p2 = path + "." + label
         json.dump(c, open(p2, "w", encoding="utf8"))
@@ -294,7 +297,7 @@ def one_roundtrip(rng, res, d, use_gpg):
             # a parse-equal edit (e.g. of an unknown member) cannot occur here: leaf edits hit real members
             before_c, _ = scen.payload_canon_by_model(content)
             after_c, err = scen.payload_canon_by_model(c)
-            if label != "leaf_edit" or before_c != after_c or err or "payload" in c:
+            if label not in ("leaf_edit", "falsy_edit") or before_c != after_c or err or "payload" in c:
                 res.fail("oracle", {"op": "load_verify_sig", "desc": dict(desc, variant=label), "content": c, "key": pub, "table": table.rows},
                          {"why": "verification succeeded after '%s'" % label, "impl": i})
 
